@@ -4,7 +4,7 @@
    script, or the timeout), the machine runs to quiescence.  The component tree is a flat list in
    pre-order with parent pointers.  Used by C05, C06, C07.  Definitions only. *)
 From Coq Require Import List Bool Arith.
-From Asphalt Require Import Gen.Gen_compctx.
+From Asphalt Require Import Gen.Gen_compctx Gen.Gen_startup.
 Import ListNotations.
 
 Definition key := (nat * nat)%type.      (* (type, name); name 0 is "default" *)
@@ -88,8 +88,19 @@ Definition is_child (P : prog) (c d : nat) : bool :=
   match parent_of P d with Some p => Nat.eqb p c | None => false end.
 Definition all_children_started (P : prog) (s : st) (c : nat) : bool :=
   forallb (fun d => if is_child P c d then Nat.eqb (rank (ph s d)) 4 else true) (seq 0 (length P)).
+(* when may child d begin?  As read from the children block of _start_component on this run (Gen/Gen_startup.v):
+   every child is started with start_soon in one task group -- all of them as soon as the parent has reached that
+   block -- or, were they awaited one after the other, each only after its earlier siblings have started *)
+Definition earlier_siblings_started (P : prog) (s : st) (d : nat) : bool :=
+  forallb (fun e => if Nat.ltb e d && (match parent_of P e, parent_of P d with
+                                         | Some a, Some b => Nat.eqb a b | _, _ => false end)
+                    then Nat.eqb (rank (ph s e)) 4 else true) (seq 0 (length P)).
 Definition parent_ready (P : prog) (s : st) (d : nat) : bool :=
-  match parent_of P d with None => true | Some p => Nat.eqb (rank (ph s p)) 2 end.
+  match parent_of P d with
+  | None => true
+  | Some p => if startup_children_concurrent then Nat.eqb (rank (ph s p)) 2
+              else Nat.eqb (rank (ph s p)) 2 && earlier_siblings_started P s d
+  end.
 
 (* the name a resource is published under: `default` is remapped only in start() *)
 Definition eff_name_for (remapped : bool) (cc : comp) (in_start : bool) (name : nat) : nat :=
